@@ -10,7 +10,7 @@ WHY = {
  "agent-C05-2": "the C05 check listed only parse_frame, so the mapper clauses of the handler contracts it relies on were not proved by it; the handler harnesses were added to C05",
  "agent-C06-2": "no MTU instance with (MTU-34) mod 14 == 0 and no maximum-size Emit within the n <= 4 bound; small-frame instances MTU 76 / 83 / 62 were added",
  "agent-C06-3": "parse_frame had no clause that an Emit reaches parseEmit; the dispatcher clauses C06.emit-dispatched / C07.query-dispatched / C08.qlt-dispatched / C07,C10.probe-dispatched were added",
- "agent-C08-3": "NOT CAUGHT: the platform model bounds icons to 48 bytes, the threshold of this change is 16384 bytes; sendLargeTlvResponse is proved for sizes up to 66000 but the caching logic of parseQueryLargeTlv only for small icons (stated as bounded)",
+ "agent-C08-3": "the platform model bounded icons to 48 bytes, the threshold of this change is 16384 bytes; the big-icon instance parse_qlt_bigicon (icon of any size, contents not modelled, sendLargeTlvResponse replaced by its contract with the call-site clause C08.ltr-args) was added",
  "agent-C09-2": "the C09 check did not include the handler proofs (where hidden record bytes are arbitrary); they were added and their clauses adopted by C09",
  "agent-C09-3": "as agent-C09-2",
  "agent-C10-2": "first run targeted send_probe only: the changed signature of sendProbeMsg does not compile against the harness (UNDECIDED, exit 2); the full C10 check decides it through parse_emit_strict where everything is inlined",
